@@ -64,6 +64,7 @@ def apply_regs(decls, regs):
 def gen(tier, seed):
     yield from late_specs()
     yield from nest_specs()
+    yield from empty_token_specs()
     rng = core.seeded_rng(seed, 'c14')
     n = 12000 if tier == 'quick' else 200000
     made = 0
@@ -111,6 +112,28 @@ def late_specs():
 
 NEST_DECLS = [D('fn', 'func', cbs='F'), D('i', 'int', default=0), D('sl', 'str', F_LIST, default=None), D('sec', 'sec', F_MULTI | F_TITLE, sub=[D('fn', 'func', cbs='F'), D('x', 'int', default=0)])]
 NEST_TEXTS = ['fn(a)\ni = 1\n', 'i = 1\nfn(one, "two words", three)\nsl = {x, y}\nfn()\ni = 2\n', 'sec t { fn(p, q) x = 3 }\nfn(r)\nsec u { x = 4 fn(%s) }\ni = 5\n' % ', '.join('a%d' % k for k in range(20))]
+
+
+def empty_token_specs():
+    """a value-parsing callback gets whatever the token says - also the empty string"""
+    decls = [D('pi', 'int', cbs='p'), D('pf', 'float', cbs='p'), D('pb', 'bool', cbs='p'), D('ps', 'str', cbs='p'), D('pl', 'int', F_LIST, cbs='p'), D('pp', 'ptr', cbs='pf'),
+             D('fn', 'func', cbs='F'), D('sec', 'sec', F_MULTI | F_TITLE, sub=[D('qi', 'int', cbs='pv'), D('ql', 'float', F_LIST, cbs='p')])]
+    texts = ['pi = "" pf = "" pb = "" ps = "" pp = ""', "pl = { \"\" , '' , 7 } fn ( \"\" , '' ) pl += \"\"", 'sec t { qi = "" ql = { "" } } sec u { ql = "" qi = \'\' }']
+    for t in texts:
+        toks = []
+        for w in t.split():
+            if w in ('=', '+=', '{', '}', '(', ')', ','):
+                toks.append([w, w, None])
+            elif w in ('""', "''"):
+                toks.append(['val', w, ''])
+            else:
+                toks.append(['name' if not toks or toks[-1][0] not in ('=', '+=', ',', '{', '(') or w in ('fn',) else 'val', w, w])
+        # (kinds only matter for punctuation; every other token is a string token for the grammar)
+        spec = {'decls': [d.to_json() for d in decls], 'toks': toks, 'regs': [], 'strict': True}
+        verdict, pos, it = model_lang.interpret(schema.new_root([D.from_json(j) for j in spec['decls']]), toks, 0)
+        assert verdict == 'accept', (t, verdict, pos)
+        spec['n'] = min(len(it.trace) + 2, MAXK)
+        yield spec
 
 
 def nest_specs():
@@ -369,6 +392,11 @@ def judge(spec, events, death):
     r0 = [e for e in g0 if e.get('ev') == 'r' and e.get('op') == 'parse_buf'][0]
     d0 = [e for e in g0 if e.get('ev') == 'dump'][0]
     lt = lib_trace(g0)
+    if (verdict == 'accept') != (r0['rc'] == 0) and spec.get('strict'):
+        # hand-built texts whose every value goes to a parse callback: nothing but a callback can refuse them
+        v.bad('callback-not-consulted', 'text %r: every value here belongs to an option with a value-parsing callback that accepts anything, yet the parse returned %s after %d of %d invocations' % (
+            text[:300], r0['rc'], len(lt), len(it.trace)))
+        return v
     if (verdict == 'accept') != (r0['rc'] == 0):
         v.skipped = True            # accept/reject disagreement without callbacks involved is C01's business
         v.notes['accept_disagreement'] = 1
